@@ -400,6 +400,11 @@ func (sc *collection) doBuild(ctx context.Context) (Provider, error) {
 		for _, descriptor := range voidReturnScoped {
 			key := instanceKey{Type: descriptor.Type, Key: descriptor.Key, Group: descriptor.Group}
 			if _, err := s.resolve(key, descriptor); err != nil {
+				if atomic.LoadInt32(&s.disposed) != 0 {
+					// Closed again in the meantime (by whoever it was opened for):
+					// there is nothing left to initialize
+					break
+				}
 				_ = p.Close()
 				return nil, &BuildError{
 					Phase:   "scope-creation",
